@@ -750,6 +750,10 @@ fn boundaries(l: &Leaf) -> Vec<Boundary> {
             push(Val::B(ramp(64, 0)), true, "len64".into());
             push(Val::B(ramp(256, 0)), true, "ramp256".into());
             push(Val::B(vec![0; 300]), true, "zeros300".into());
+            // sizes around what other layers consider "a part" / "a packet": the description puts no bound on data
+            for n in [899usize, 900, 901, 1024, 1390, 2048, 5000, 70_000] {
+                push(Val::B(ramp(n, (n % 251) as u8)), true, format!("len{}", n));
+            }
             push(Val::Wire(int_bytes(-1)), false, "len-1".into());
             push(Val::Wire(int_bytes(i32::MIN)), false, "lenMIN".into());
             push(Val::Wire(int_bytes(i32::MAX)), false, "lenMAX".into());
@@ -759,6 +763,8 @@ fn boundaries(l: &Leaf) -> Vec<Boundary> {
             push(Val::B(vec![0]), true, "zero".into());
             push(Val::B(ramp(5, 250)), true, "some".into());
             push(Val::B(ramp(300, 0)), true, "ramp300".into());
+            push(Val::B(ramp(901, 3)), true, "ramp901".into());
+            push(Val::B(ramp(1400, 7)), true, "ramp1400".into());
         }
         LeafKind::Addrs => {
             push(Val::B(vec![]), true, "none".into());
@@ -1330,7 +1336,8 @@ fn rnd_val(l: &Leaf, rnd: i32) -> Val {
             )
         }
         LeafKind::Data | LeafKind::Rest => {
-            let n = (xorshift(&mut s) % 70) as usize;
+            let r = xorshift(&mut s);
+            let n = if r % 16 == 0 { 850 + (xorshift(&mut s) % 600) as usize } else { (r % 70) as usize };
             Val::B((0..n).map(|_| xorshift(&mut s) as u8).collect())
         }
         LeafKind::Addrs => {
